@@ -778,6 +778,12 @@ func Generate(seed int64, name string, o GenOpts) *Spec {
 	if o.Hostile {
 		g.hostileDecls()
 	}
+	if !o.Static && !o.Wire && r.Intn(5) == 0 && !strings.Contains(s.ExtraDecl, " ctx ") && !strings.Contains(s.ExtraDecl, " ctx(") && !g.names["ctx"] {
+		// the user package owns a package-level ctx of type context.Context:
+		// generated code that spells "ctx" literally would still compile
+		s.ExtraDecl += "var ctx = context.Background()\n"
+		g.feature("pkglevel:ctx-of-type-context")
+	}
 	for j := 1; j < o.MultiInj && len(cands) > 0; j++ {
 		t := cands[r.Intn(len(cands))]
 		its := items
